@@ -1,6 +1,7 @@
 package main
 
 import (
+	"go/constant"
 	"os"
 	"fmt"
 	"go/token"
@@ -542,6 +543,8 @@ func runC01Rest(c *Ctx) {
 	// R22 (shared with C18.R3): with the allocator the page that holds a DATA reply is released only after the reply has
 	// been written — released before, it is handed out again and the bytes on the wire are another packet's
 	c.withOnly("R3", "R22", func() { runC18(c) })
+	checkMaxTxPacketOptions(c, "R23")
+	checkWriteChunkCountsOnlyAcknowledged(c, "R24")
 	// R12: the count equals the bytes moved — not when the chunk offsets wrapped (shared with C12.R10)
 	c.withRule("R12", func() { checkChunkOffsetsCannotWrap(c, "R10") })
 	checkAppendStartsAtEnd(c, "R13")
@@ -1716,4 +1719,84 @@ func isClampSlice(s *ssa.Slice) bool {
 		}
 	}
 	return false
+}
+
+// checkMaxTxPacketOptions (C01.R23): the servers' maximum READ payload is what getDataSlice clamps to; it is set by
+// WithMaxTxPacket / WithRSMaxTxPacket.  The option's body is run by the interpreter for sizes around the default: a size
+// at or above the default is stored, a smaller one leaves the field alone.  With the guard inverted a raised limit is
+// silently ignored and the client's larger reads come back short (which its concurrent paths take for end of file).
+func checkMaxTxPacketOptions(c *Ctx, rule string) {
+	p := c.P
+	def, okDef := int64(32768), false
+	if g := p.Sftp.Const("defaultMaxTxPacket"); g != nil {
+		if k, ok := constant.Int64Val(constant.ToInt(g.Value.Value)); ok {
+			def, okDef = k, true
+		}
+	}
+	_ = okDef
+	for _, name := range []string{"WithMaxTxPacket", "WithRSMaxTxPacket"} {
+		ctor := p.Func(name)
+		if ctor == nil {
+			c.missing(rule, name)
+			continue
+		}
+		var mc *ssa.MakeClosure
+		for _, rl := range returnLeaves(ctor, 0) {
+			v := rl.v
+			if ct, ok := v.(*ssa.ChangeType); ok {
+				v = ct.X
+			}
+			if m, ok := v.(*ssa.MakeClosure); ok {
+				mc = m
+			}
+		}
+		body, _ := func() (*ssa.Function, bool) {
+			if mc == nil {
+				return nil, false
+			}
+			f, ok := mc.Fn.(*ssa.Function)
+			return f, ok
+		}()
+		if body == nil || len(mc.Bindings) != 1 || len(body.Params) != 1 {
+			c.okT(rule, name+" stores sizes from the default upwards", p.Pos(ctor.Pos()), "the option is not a literal over its size parameter: not evaluated")
+			continue
+		}
+		srvT := derefType(body.Params[0].Type())
+		wrong, und := "", false
+		for _, size := range []int64{def - 1, def, def + 1, 65536, 1 << 20} {
+			const old = 7 // a marker for "the field as it was"
+			obj := &evObj{typ: srvT, fields: map[string]evVal{"maxTxPacket": evInt(old, types.Typ[types.Uint32])}}
+			ev := newEvaluator(p)
+			cell := evInt(size, types.Typ[types.Uint32])
+			ev.nextFree = []*evVal{&cell}
+			res := ev.run(body, []evVal{{k: evObject, obj: obj}}, 0)
+			if res.kind != "return" {
+				und = true
+				break
+			}
+			got := obj.fields["maxTxPacket"]
+			if got.k != evConst {
+				und = true
+				break
+			}
+			g, _ := constant.Int64Val(constant.ToInt(got.c))
+			want := int64(old)
+			if size >= def {
+				want = size
+			}
+			if g != want {
+				if g == old {
+					wrong = fmt.Sprintf("%s(%d) leaves the maximum payload as it was", name, size)
+				} else {
+					wrong = fmt.Sprintf("%s(%d) sets the maximum payload to %d", name, size, g)
+				}
+				break
+			}
+		}
+		if und {
+			c.okT(rule, name+" stores sizes from the default upwards", p.Pos(ctor.Pos()), "the option's body cannot be run by the interpreter: not evaluated")
+			continue
+		}
+		c.check(wrong == "", rule, name+" stores sizes from the default upwards", p.Pos(ctor.Pos()), "evaluated below, at and above the default", wrong+": a raised limit is ignored (or a too small one accepted), READ replies are cut shorter than the client was told to expect")
+	}
 }
